@@ -203,6 +203,25 @@ func init() {
 			assertImpl(ex, a[0].(VBool).T, cstr(a[1]), cstr(a[2]), a[3].(VBool).T)
 			return nil
 		}
+		// lock discipline: everything reachable from root is guarded by the mutex
+		m["nd:ndGuardedBy"] = func(ex *Exec, fr *frame, cc *ssa.CallCommon, a []Value) Value {
+			root := a[0].(VIface).V.(VPtr)
+			ex.guards = append(ex.guards, lockGuard{root: root, muKey: muKey(a[1].(VPtr))})
+			return nil
+		}
+		m["nd:ndLockFree"] = func(ex *Exec, fr *frame, cc *ssa.CallCommon, a []Value) Value {
+			return VBool{BoolC(ex.held[muKey(a[0].(VPtr))] == 0)}
+		}
+		// two calls that run concurrently in reality: executed one after the other, in either order
+		m["nd:ndConcurrently"] = func(ex *Exec, fr *frame, cc *ssa.CallCommon, a []Value) Value {
+			f, g := a[0].(VClos), a[1].(VClos)
+			if ex.pick("concurrentOrder", 2) == 1 {
+				f, g = g, f
+			}
+			ex.callFn(fr, cc, f.Fn, nil, f.Bind)
+			ex.callFn(fr, cc, g.Fn, nil, g.Bind)
+			return nil
+		}
 		m["nd:ndReach"] = func(ex *Exec, fr *frame, cc *ssa.CallCommon, a []Value) Value {
 			l := cstr(a[0])
 			ex.Reached[l]++
